@@ -94,7 +94,7 @@ MWEIGHTS = {
     'blacklist': 2, 'group': 3, 'del_group': 1, 'clock': 6, 'cell_event': 1,
     'integrity': 2, 'restart': 0, 'noop': 1, 'blackout_server': 1, 'partition_schedule': 1, 'bucket_new': 1,
     'stale_finished': 1, 'swap_apps': 1, 'retention_update': 1, 'bucket_remove': 0, 'server_delete_event_lost': 1,
-    'servers_reload_all': 1, 'bucket_reparent': 0, 'stale_presence': 2, 'maintenance': 2, 'group_squeeze': 3, 'blackout_then_redeclare': 2, 'agent_reregisters': 0, 'server_stub': 1,       # bucket_reparent: C11 only (its profile)
+    'servers_reload_all': 1, 'bucket_reparent': 0, 'stale_presence': 2, 'maintenance': 2, 'group_squeeze': 3, 'blackout_then_redeclare': 2, 'agent_reregisters': 2, 'server_stub': 1,       # bucket_reparent: C11 only (its profile)
 }
 
 
@@ -537,6 +537,14 @@ class MasterDriver:
         name = self.rng.choice(up)
         self.op_presence_down(name)
         self.settle_delivery()          # the master learns that it is gone (a flap it never sees changes nothing for it)
+        so = self.master.servers.get(name) if self.master is not None else None
+        if so is None or so.state is not self.sch.State.down:
+            # an operator's explicit state event processed in the same batch keeps the absent server 'up' (or it is
+            # frozen): the master then has no reason to read the record again when the node is back - not this history
+            self.lost.pop(name, None)
+            self._presence_up(name)
+            self.settle_delivery()
+            return
         zs = self.Z['servers'][name]
         cap = [max(1, int(c * self.rng.choice([0.5, 0.5, 0.75, 1.0]))) for c in zs['cap']]
         spelled = dict(memory='%dM' % cap[0], cpu='%d%%' % cap[1], disk='%dM' % cap[2])
